@@ -177,3 +177,110 @@ def node_with(cfg, x):
         if n.id in r and n.e is not None and any(y is x for y in ewalk(n.e)):
             return n
     return None
+
+
+def local_defs(cfg, nid):
+    """name -> defining expression for scalar variables at CFG node nid, valid for that execution of the node: the definition
+    'x = e' dominates nid, and no node on a path from the definition to nid (that does not pass through the definition again)
+    writes x or a variable that e reads.  Unlike cfront.scalar_defs this accepts definitions that read a cursor which the
+    enclosing loop advances after the use (di = i[p] - i[k]; ...; p++)."""
+    import networkx as nx
+    g = cfg.g
+    chain = list(reversed(cfg.dominators(nid)))
+    anc = nx.ancestors(g, nid) | {nid}
+
+    def written(n):
+        out = set()
+        if n.e is None or n.k not in ("expr", "decl", "cond", "return"):
+            return out
+        for x in ewalk(n.e):
+            if x.k == "asg" and x.a[0].k == "var":
+                out.add(x.a[0].name)
+            if x.k == "incdec" and x.a[0].k == "var":
+                out.add(x.a[0].name)
+            if x.k == "un" and x.op == "&" and x.a[0].k == "var":
+                out.add(x.a[0].name)
+        return out
+    defs = {}
+    for d in chain[:-1]:
+        n = cfg.nodes[d]
+        if n.k != "expr" or n.e is None or n.e.k != "asg" or n.e.op != "=" or n.e.a[0].k != "var":
+            continue
+        name = n.e.a[0].name
+        rhs = n.e.a[1]
+        if any(x.k in ("asg", "incdec", "call") for x in ewalk(rhs)):
+            continue
+        reads = {x.name for x in ewalk(rhs) if x.k == "var"}
+        if name in reads:
+            continue
+        h = g.copy()
+        h.remove_node(d)
+        between = set()
+        for s_ in g.successors(d):
+            if s_ in h:
+                between |= {s_} | nx.descendants(h, s_)
+        between &= (nx.ancestors(h, nid) if nid in h else set())
+        bad = False
+        for b in between:
+            if written(cfg.nodes[b]) & (reads | {name}):
+                bad = True
+                break
+        if not bad:
+            defs[name] = rhs
+    return defs
+
+
+class NotEvaluable(Exception):
+    pass
+
+
+def ceval(e, env):
+    """concrete value of a C expression: env maps canonical texts (of loads / variables) to numbers"""
+    t = estr(e).replace(" ", "")
+    if t in env:
+        return env[t]
+    if e.k in ("int", "float"):
+        return e.val
+    if e.k == "var" and e.name in env and not isinstance(env[e.name], (list, tuple)):
+        return env[e.name]
+    if e.k == "idx":
+        b_ = e.a[0]
+        while b_.k == "cast":
+            b_ = b_.a[0]
+        if b_.k == "var" and isinstance(env.get(b_.name), (list, tuple)):
+            k_ = ceval(e.a[1], env)
+            arr_ = env[b_.name]
+            if not (isinstance(k_, int) and 0 <= k_ < len(arr_)):
+                raise NotEvaluable("index %s out of the model array %s" % (k_, b_.name))
+            return arr_[k_]
+    if e.k == "cast":
+        v = ceval(e.a[0], env)
+        if e.ty and ("int" in e.ty or "long" in e.ty or "short" in e.ty or "char" in e.ty) and "*" not in e.ty:
+            return int(v)
+        return v
+    if e.k == "un" and e.op in ("-", "+", "!"):
+        v = ceval(e.a[0], env)
+        return -v if e.op == "-" else (v if e.op == "+" else int(not v))
+    if e.k == "cond":
+        return ceval(e.a[1], env) if ceval(e.a[0], env) else ceval(e.a[2], env)
+    if e.k == "call" and e.name in ("abs", "fabs", "fabsf", "labs") and len(e.a) == 1:
+        return abs(ceval(e.a[0], env))
+    if e.k == "bin":
+        if e.op == "&&":
+            return int(bool(ceval(e.a[0], env)) and bool(ceval(e.a[1], env)))
+        if e.op == "||":
+            return int(bool(ceval(e.a[0], env)) or bool(ceval(e.a[1], env)))
+        a, b = ceval(e.a[0], env), ceval(e.a[1], env)
+        if e.op == "/":
+            if isinstance(a, int) and isinstance(b, int):
+                if b == 0:
+                    raise NotEvaluable("division by zero")
+                q = abs(a) // abs(b)
+                return q if (a >= 0) == (b >= 0) else -q
+            from fractions import Fraction
+            return Fraction(a) / Fraction(b)
+        ops = {"+": lambda: a + b, "-": lambda: a - b, "*": lambda: a * b, "<": lambda: int(a < b), ">": lambda: int(a > b),
+               "<=": lambda: int(a <= b), ">=": lambda: int(a >= b), "==": lambda: int(a == b), "!=": lambda: int(a != b)}
+        if e.op in ops:
+            return ops[e.op]()
+    raise NotEvaluable(estr(e))
